@@ -550,6 +550,37 @@ def check_params_stable(ctx: Ctx, rule: str = "R-PARAMS"):
     return n
 
 
+KNOWN_DECORATORS = ("property", "staticmethod", "classmethod", "abc.abstractmethod", "abstractmethod", "numba.njit", "nb.njit")
+CACHING_DECORATORS = ("lru_cache", "cache", "cached_property", "memoize", "memoized", "cachedmethod", "cached")
+
+
+def check_decorators(ctx: Ctx, rule: str = "R-DECORATORS"):
+    """closedness guard: the rules read a function's body as what a call to it does.  A decorator outside the ones of the pinned tree
+    (property / staticmethod / classmethod / abstractmethod / numba.njit / dissimilarity_dec / setters) on a function the property's rules
+    analysed, or on one reachable from those, breaks that reading: memoisation returns a stored result, a wrapper may do anything.  Reported
+    UNDECIDED (not a verdict); properties with a rule about a specific cached quantity report that one as a violation themselves."""
+    M = ctx.model
+    roots = sorted(q for q in ctx.functions_analysed if q in M.functions)
+    try:
+        reach = set(prog(ctx).reachable(roots)) | set(roots)
+    except Exception:       # the call graph is a convenience here: fall back to the analysed functions themselves
+        reach = set(roots)
+    n = 0
+    for qn in sorted(reach):
+        f = M.functions.get(qn)
+        if f is None or isinstance(f.node, ast.Lambda):
+            continue
+        for d in f.decorators:
+            n += 1
+            short = d.split(".")[-1]
+            if d in KNOWN_DECORATORS or d.startswith(("numba.njit", "nb.njit")) or short in ("dissimilarity_dec", "setter", "deleter", "getter"):
+                continue
+            kind = "memoises its results" if short in CACHING_DECORATORS else "is wrapped by a decorator the analysis does not model"
+            ctx.undecided(rule, f, None, f"{qn} {kind} (@{d}): its body is no longer what every call executes - a result computed from state that "
+                          f"changes later (an attribute reassigned between calls) would be stale; not a verdict by itself", construct=f"@{d}", key=f"{qn}:{d}")
+    return n
+
+
 _OPS = {ast.Lt: "<", ast.LtE: "<=", ast.Gt: ">", ast.GtE: ">=", ast.Eq: "==", ast.NotEq: "!="}
 _MIRROR = {"<": ">", "<=": ">=", ">": "<", ">=": "<=", "==": "==", "!=": "!="}
 
